@@ -18,6 +18,7 @@ type vStmt struct {
 	setC   bool
 	b, c   int64
 	writer int
+	cNull  bool // the value assigned to c is NULL
 	eff    bool // accepted and applied (see vExec)
 }
 
@@ -26,6 +27,7 @@ type vStmt struct {
 func vSymStmt(i int, kinds int) vStmt {
 	is := string(rune('0' + i))
 	s := vStmt{kind: symChoice("kind"+is, kinds), t: symInt64("t" + is), b: symInt64("b" + is), c: symInt64("c" + is)}
+	s.cNull = symParam("nulls", 1) == 1 && s.kind == vINS && symChoice("cnull"+is, 2) == 1
 	symAssume(vTimeOK(s.t))
 	switch s.kind {
 	case vINS:
@@ -52,7 +54,7 @@ func vExec(vt *VirtualTable, s vStmt) bool {
 	symAssert(err == nil, "get-ok")
 	switch s.kind {
 	case vINS:
-		_, err := vt.Insert(vAt(s.t), map[int]interface{}{0: int64(1), 1: s.b, 2: s.c})
+		_, err := vt.Insert(vAt(s.t), map[int]interface{}{0: int64(1), 1: s.b, 2: s.cVal()})
 		if visible {
 			symAssert(err == ErrS3DBConstraintPrimaryKey, "insert-of-visible-row-refused")
 			return false
@@ -73,7 +75,7 @@ func vExec(vt *VirtualTable, s vStmt) bool {
 			m[1] = s.b
 		}
 		if s.setC {
-			m[2] = s.c
+			m[2] = s.cVal()
 		}
 		symAssert(vt.Update(vAt(s.t), int64(1), m) == nil, "update-ok")
 		return true
@@ -85,6 +87,13 @@ func vExec(vt *VirtualTable, s vStmt) bool {
 		return true
 	}
 	return false
+}
+
+func (s vStmt) cVal() interface{} {
+	if s.cNull {
+		return nil
+	}
+	return s.c
 }
 
 type vVisible struct {
@@ -117,7 +126,7 @@ func vOracle(st []vStmt) vVisible {
 			tb, res.b = s.t, s.b
 		}
 		if s.setC && s.t > tc {
-			tc, res.c = s.t, s.c
+			tc, res.c = s.t, s.cVal()
 		}
 	}
 	return res
@@ -204,10 +213,26 @@ func VerifH_C02_history() {
 	}
 	// C01: merging adds nothing when nothing new was committed
 	if symParam("quiesce", 0) == 1 {
+		// variant: one writer's version lost its nodes (vacuumed by somebody
+		// else, or not visible yet): the opener skips it, and must still settle
+		damaged := false
+		if syncAt == 0 && symChoice("damage", 2) == 1 {
+			for _, name := range bkt.names(vPrefix + "/node/") {
+				if bkt.putBy[name] == 2 {
+					delete(bkt.objs, name)
+					damaged = true
+				}
+			}
+		}
 		m1, err := vOpen(bkt.client(5), vTableOpts{bf: 2}, 910)
 		symAssert(err == nil, "merging-open-ok")
+		if damaged {
+			got = vSee(m1)
+		}
 		symAssert(vSameVisible(vSee(m1), got), "merging-writer-sees-the-same-row")
-		symAssert(len(bkt.names(vPrefix+"/root/current/")) <= 1, "one-current-version-after-merge")
+		if !damaged {
+			symAssert(len(bkt.names(vPrefix+"/root/current/")) <= 1, "one-current-version-after-merge")
+		}
 		muts := bkt.muts
 		m2, err := vOpen(bkt.client(6), vTableOpts{bf: 2}, 920)
 		symAssert(err == nil, "quiescent-reopen-ok")
